@@ -52,6 +52,8 @@ def modelled : List String := [
   "ffg.neg",
   "ffg.reduce",
   "ffg.sub",
+  "tree.<layout>@ffg",
+  "tree.<layout>@root",
   "ffg.<decls>@arith.go",
   "ffg.<decls>@asm.go",
   "ffg.<decls>@asm_noadx.go",
@@ -66,6 +68,6 @@ theorem source_pinned : modelled.all (same I3.Gen.fingerprints) = true := by dec
 theorem function_set_pinned : (["ffg."] : List String).all (sameKeys I3.Gen.fingerprints) = true := by
   decide +kernel
 
-theorem modelled_nonempty : 50 = modelled.length := by decide
+theorem modelled_nonempty : 52 = modelled.length := by decide
 
 end I3.Props.C09
